@@ -14,6 +14,7 @@ fn factory(model: &str) -> Option<Factory> {
         "undo" => Box::new(|c: &Value| Box::new(models::undo::UF::new(c)) as Box<dyn Model>),
         "indexes" => Box::new(|c: &Value| Box::new(models::indexes::IXWrap::new(c)) as Box<dyn Model>),
         "agenda" => Box::new(|c: &Value| Box::new(models::agenda::AG::new(c)) as Box<dyn Model>),
+        "checkpoint" => Box::new(|c: &Value| Box::new(models::checkpoint::CK::new(c)) as Box<dyn Model>),
         _ => return None,
     })
 }
@@ -49,6 +50,7 @@ fn main() {
             }
         }
         Some("fireloop") => models::fireloops::cmd_fireloop(&args),
+        Some("ckcrash") => models::checkpoint::cmd_ckcrash(&args),
         Some("kbstress") => models::kb::cmd_stress(&args),
         _ => {
             eprintln!("usage: vh replay|replay-one <model> <file> [opts]");
